@@ -114,6 +114,7 @@ def op_parts(op):
 
 
 def observe(w, mgr=None):
+    """Everything the check knows about a manager comes from here: the PUBLIC API of VBSClusteringManager."""
     m = mgr if mgr is not None else w.mgr
     with w:
         st = m.state
@@ -121,135 +122,185 @@ def observe(w, mgr=None):
         op = m.get_cluster_operation_container()
         info = m.get_cluster_information_container()
         cid = m.get_cluster_id()
-    return dict(state=st.name, tx=bool(tx), op=op, info=info, cid=cid, notif=op_parts(op))
+        nv = m.get_nearby_vru_count()
+        nc = m.get_nearby_cluster_count()
+    return dict(state=st.name, tx=bool(tx), op=op, info=info, cid=cid, notif=op_parts(op), near_vrus=nv, near_clusters=nc)
 
 
-def internal(m, name):
+def info_summary(info):
+    if info is None:
+        return None
+    vci = info.get("vruClusterInformation", {})
+    return (vci.get("clusterId"), vci.get("clusterCardinalitySize"))
+
+
+def time_fields(op):
+    op = op or {}
+    return ((op.get("clusterJoinInfo") or {}).get("joinTime"), (op.get("clusterBreakupInfo") or {}).get("breakupTime"))
+
+
+def public_view(ob):
+    """Hashable digest of one public observation."""
+    return (ob["state"], ob["tx"], tuple(sorted(ob["notif"].items())), time_fields(ob["op"]), info_summary(ob["info"]),
+            ob["cid"], ob["near_vrus"], ob["near_clusters"])
+
+
+PUBLIC_FIELDS = ("state", "should_transmit", "operation_container", "time_field", "information_container", "cluster_id",
+                 "nearby_vru_count", "nearby_cluster_count")
+
+
+def view_diff(a, b):
+    return ",".join(PUBLIC_FIELDS[i] for i in range(len(a)) if a[i] != b[i])
+
+
+# -- optional view of the anchored private state, found by EXPERIMENT, not by name ------------------------------------
+# The statement names internal state (own cluster, joined cluster / leader / last leader VAM time).  Attribute names are
+# not part of any contract, so they are never spelled here.  Once per process a calibration run on a fresh manager
+# (join a cluster with a distinctive id via a distinctive leader, then role-off; create a cluster, then role-off) looks
+# at the manager's OWN instance dictionary (one level, no graph walk) and keeps an attribute for a role only if exactly
+# one attribute shows that role's value pattern.  Roles that cannot be identified are simply not checked (the public
+# oracles and the liveness probes remain); nothing ever fails because of a rename.
+_ROLES = None
+_CAL_CLUSTER, _CAL_LEADER, _CAL_OWN_CLUSTER = 201, 54321, 203
+
+
+def discover_roles():
+    global _ROLES
+    if _ROLES is not None:
+        return _ROLES
+    roles = {}
     try:
-        return getattr(m, name)
-    except AttributeError as e:   # the anchored state was renamed: the invariants cannot be evaluated
-        raise HarnessError(f"VBSClusteringManager.{name} not found - anchored state renamed? ({e})")
+        lat, lon = V.pos_of(OWN)
+        w = V.ManagerWorld(OWN)
+        m = w.mgr
+        s0 = dict(vars(m))
+        with w:
+            m.initiate_join(_CAL_CLUSTER)
+        s1 = dict(vars(m))
+        w.step(D_JOIN)
+        with w:
+            m.update(lat, lon, 1.0, 90.0)
+            m.on_received_vam(V.test_style_vam(_CAL_LEADER, info=V.cluster_info(_CAL_CLUSTER, shape="dict")))
+        t_join = w.now
+        s2 = dict(vars(m))
+        passive = m.state is VBSState.VRU_PASSIVE
+        with w:
+            m.set_vru_role_off()
+        s3 = dict(vars(m))
+
+        def unique(pred):
+            c = [n for n in s0 if n in s1 and n in s2 and n in s3 and pred(s0[n], s1[n], s2[n], s3[n])]
+            return c[0] if len(c) == 1 else None
+
+        def is_val(x, v):
+            return type(x) is type(v) and x == v
+        if passive:
+            roles["joined"] = unique(lambda a, b, c, d: a is None and b is None and is_val(c, _CAL_CLUSTER) and d is None)
+            roles["leader"] = unique(lambda a, b, c, d: a is None and b is None and is_val(c, _CAL_LEADER) and d is None)
+            roles["timer"] = unique(lambda a, b, c, d: a is None and b is None and is_val(c, t_join) and d is None)
+        w = V.ManagerWorld(OWN)
+        m = w.mgr
+        c0 = dict(vars(m))
+        old = ENV.rand_int
+        ENV.rand_int = staticmethod(lambda a, b: _CAL_OWN_CLUSTER)
+        try:
+            with w:
+                for g in GHOSTS:
+                    m.on_received_vam(V.test_style_vam(g))
+                m.try_create_cluster(lat, lon)
+        finally:
+            ENV.rand_int = staticmethod(old)
+        c1 = dict(vars(m))
+        leader = m.state is VBSState.VRU_ACTIVE_CLUSTER_LEADER
+        with w:
+            m.set_vru_role_off()
+        c2 = dict(vars(m))
+        if leader:
+            cand = [n for n in c0 if c0[n] is None and c2.get(n) is None and c1.get(n) is not None
+                    and not isinstance(c1[n], (bool, int, float, str, bytes))]
+            roles["cluster"] = cand[0] if len(cand) == 1 else None
+    except Exception:  # noqa: BLE001 - calibration is an optimisation, never a reason to fail
+        roles = {}
+    _ROLES = {k: v for k, v in roles.items() if v}
+    return _ROLES
+
+
+_MISSING = object()
 
 
 def invariants(m, ob):
-    """I1-I3 on one state. Returns violation records."""
+    """I1-I3 on one state: public API, plus the discovered anchored attributes where available."""
     out = []
     st = ob["state"]
-    cl = internal(m, "_cluster")
-    joined = internal(m, "_joined_cluster_id")
-    leader = internal(m, "_leader_station_id")
-    timer = internal(m, "_last_leader_vam_time")
     is_leader = st == "VRU_ACTIVE_CLUSTER_LEADER"
     is_passive = st == "VRU_PASSIVE"
     # I1
-    if is_leader != (cl is not None):
-        out.append(dict(kind="inv_leader_iff_owns_cluster", state=st, owns=cl is not None))
-    if cl is not None:
-        cid, card = getattr(cl, "cluster_id", None), getattr(cl, "cardinality", None)
-        if not (isinstance(cid, int) and 1 <= cid <= 255):
-            out.append(dict(kind="inv_cluster_id_range", state=st, cluster_id=cid))
-        if not (isinstance(card, int) and card >= 1):
-            out.append(dict(kind="inv_cardinality", state=st, cardinality=card))
     info = ob["info"]
     if is_leader != (info is not None):
         out.append(dict(kind="inv_leader_iff_info_container", state=st, has_info=info is not None))
     if info is not None:
-        vci = info.get("vruClusterInformation", {})
-        if not (isinstance(vci.get("clusterId"), int) and 1 <= vci["clusterId"] <= 255):
-            out.append(dict(kind="inv_cluster_id_range", state=st, cluster_id=vci.get("clusterId"), where="container"))
-        if not (isinstance(vci.get("clusterCardinalitySize"), int) and vci["clusterCardinalitySize"] >= 1):
-            out.append(dict(kind="inv_cardinality", state=st, cardinality=vci.get("clusterCardinalitySize"), where="container"))
-        if cl is not None and (vci.get("clusterId") != cl.cluster_id or vci.get("clusterCardinalitySize") != cl.cardinality):
-            out.append(dict(kind="inv_info_container_mismatch", state=st))
+        cid, card = info_summary(info)
+        if not (isinstance(cid, int) and not isinstance(cid, bool) and 1 <= cid <= 255):
+            out.append(dict(kind="inv_cluster_id_range", state=st, cluster_id=cid, where="container"))
+        if not (isinstance(card, int) and not isinstance(card, bool) and card >= 1):
+            out.append(dict(kind="inv_cardinality", state=st, cardinality=card, where="container"))
+        if is_leader and ob["cid"] != cid:
+            out.append(dict(kind="inv_info_container_mismatch", state=st, api=ob["cid"], container=cid))
+    if is_leader and ob["cid"] is None:
+        out.append(dict(kind="inv_leader_iff_owns_cluster", state=st, owns=False))
     # I2
-    if is_passive != (joined is not None):
-        out.append(dict(kind="inv_passive_iff_joined", state=st, joined=joined))
-    if joined is not None or is_passive:
-        if leader is None:
-            out.append(dict(kind="inv_passive_without_leader", state=st))
-        if timer is None:
-            out.append(dict(kind="inv_passive_without_timer", state=st))
-    if is_passive and ob["cid"] != joined:
-        out.append(dict(kind="inv_passive_cluster_id_api", state=st, api=ob["cid"], joined=joined))
+    if is_passive and ob["cid"] is None:
+        out.append(dict(kind="inv_passive_iff_joined", state=st, joined=None, where="api"))
+    if not (is_passive or is_leader) and ob["cid"] is not None:
+        out.append(dict(kind="inv_cluster_id_outside_cluster", state=st, api=ob["cid"]))
     # I3
     if not ob["tx"] and st not in ("VRU_PASSIVE", "VRU_IDLE"):
         out.append(dict(kind="inv_suppressed_outside_passive_idle", state=st))
+    # anchored state (only for the roles the calibration could identify)
+    roles = discover_roles()
+    if roles:
+        d = vars(m)
+        cl = d.get(roles.get("cluster"), _MISSING)
+        if cl is not _MISSING and is_leader != (cl is not None):
+            out.append(dict(kind="inv_leader_iff_owns_cluster", state=st, owns=cl is not None))
+        joined = d.get(roles.get("joined"), _MISSING)
+        if joined is not _MISSING:
+            if is_passive != (joined is not None):
+                out.append(dict(kind="inv_passive_iff_joined", state=st, joined=joined))
+            if is_passive and ob["cid"] != joined:
+                out.append(dict(kind="inv_passive_cluster_id_api", state=st, api=ob["cid"], joined=joined))
+            member = is_passive or joined is not None
+            if member and d.get(roles.get("leader"), _MISSING) is None:
+                out.append(dict(kind="inv_passive_without_leader", state=st))
+            if member and d.get(roles.get("timer"), _MISSING) is None:
+                out.append(dict(kind="inv_passive_without_timer", state=st))
     return out
 
 
 # ------------------------------------------------------------------------------------------------
-# canonical state
+# canonical state = public observation + what the HARNESS knows about the history (no private attribute)
 # ------------------------------------------------------------------------------------------------
-def mgr_key(w, m=None):
-    """Property-relevant projection of the real manager.
+def canon_a(w, horizon_ticks):
+    """Canonical state of World A.
 
-    Why merged states have equal futures: (1) the manager reads the clock only through differences to stored time
-    stamps, so absolute time is replaced by ages on the 50 ms lattice; (2) every age is compared with one threshold
-    only (>= duration) or enters a max(0, duration - age) expression, so ages are saturated at that threshold;
-    (3) time stamps / reasons / target ids of a sub-procedure are read only while its sub-state is active
-    (_join_started under NOTIFY/WAITING, _join_leave_* under CANCELLED/FAILED, _leave_* under leave NOTIFY), stale
-    values are masked; (4) positions/kinematics of table entries are constants of the sender in this world.
-    If the projection fails on a refactored tree the generic structural digest (finer) is used instead."""
-    m = m if m is not None else w.mgr
-    try:
-        def sat(t, cap):
-            return None if t is None else min(w.age(t), cap)
-        js, ls = m._join_substate.name, m._leave_substate.name
-        cl = None
-        if m._cluster is not None:
-            c = m._cluster
-            cl = (c.cluster_id, c.cardinality, tuple(sorted(c.pending_members)), sat(c.breakup_started, D_BREAK),
-                  c.breakup_reason.name if c.breakup_reason is not None else None, tuple(sorted(c.profiles)), c.radius)
-        join = None
-        if js in ("NOTIFY", "WAITING"):
-            join = (m._join_target_cluster_id, sat(m._join_started, D_JOIN if js == "NOTIFY" else D_WAIT))
-        elif js in ("CANCELLED", "FAILED"):
-            join = (m._join_target_cluster_id, m._join_leave_reason.name if m._join_leave_reason else None,
-                    sat(m._join_leave_started, D_LEAVE))
-        leave = None
-        if ls == "NOTIFY":
-            leave = (m._leave_cluster_id, m._leave_reason.name if m._leave_reason else None, sat(m._leave_started, D_LEAVE))
-        member = (m._joined_cluster_id, m._leader_station_id, sat(m._last_leader_vam_time, D_CONT))
-        nv = tuple(sorted((sid, sat(v.last_seen, D_NEAR)) for sid, v in m._nearby_vrus.items()))
-        nc = tuple(sorted((cid, c.leader_station_id, c.cardinality, c.bounding_box_radius, sat(c.last_seen, D_NEAR))
-                          for cid, c in m._nearby_clusters.items()))
-        seen = tuple(sorted((cid, sat(t, D_UNIQ)) for cid, t in m._seen_cluster_ids.items()))
-        return ("P", m._state.name, js, ls, cl, join, leave, member, nv, nc, seen)
-    except AttributeError:
-        return ("G", V.struct(m, w.now))
+    Part 1, the public observation: VBS state, transmit gate, operation container (identities and the quarter-second
+    time fields), information container (cluster id, cardinality), cluster id.
+    Part 2, harness knowledge of the history, all as ages on the 50 ms lattice saturated at the one duration each is
+    compared with: running notifications (kind, identity, age), join procedure (phase, target, age), station on record
+    as leader and its silence, members that announced themselves to the own cluster, age of the block of three ghost
+    VRUs, recently delivered cluster ids (ages only if the longest history can reach timeClusterUniquenessThreshold).
 
-
-def reduce_key(key, horizon_ticks):
-    """Coarser key used for merging states of World A (the precise key is kept for the wire/dict differential).
-
-    Dropped, with the reason why no future observation of this world can depend on it:
-    * nearby-cluster table: the manager never reads it for a decision (only ``.get(0, default).cluster_id`` which is 0
-      for the entry and for the default alike); it is bookkeeping for the application.
-    * nearby-VRU entries of the two talking stations L and O: the table is read only by try_create_cluster, which
-      needs NUM_CREATE_CLUSTER = 3 fresh entries; L and O are two, the ghosts arrive and age as a block of three, so
-      the count reaches 3 exactly when the ghost block is fresh.  Only the (saturated) age of that block is kept.
-    * ages of recently seen cluster ids: an id is forgotten after timeClusterUniquenessThreshold = 30 s; when the
-      longest explored history is shorter than that (depth x 3 s) no age can reach the threshold, so only the set of
-      ids matters.  (With a longer horizon the ages are kept.)
-    The generic fallback key is never reduced."""
-    if key[0] != "P" or VC.NUM_CREATE_CLUSTER != len(GHOSTS):
-        return key
-    nv = key[8]
-    ghost_age = min([a for sid, a in nv if sid in GHOSTS] or [D_NEAR])
-    seen = key[10]
-    if horizon_ticks < D_UNIQ:
-        seen = tuple(cid for cid, _a in seen)
-    return key[:8] + (ghost_age, seen)
-
-
-KEY_FIELDS = ("form", "state", "join_sub", "leave_sub", "own_cluster", "join", "leave", "membership", "nearby_vrus",
-              "nearby_clusters", "seen_ids")
-
-
-def key_diff(a, b):
-    if len(a) != len(b) or a[0] != "P" or b[0] != "P":
-        return "all"
-    return ",".join(KEY_FIELDS[i] for i in range(len(a)) if a[i] != b[i])
+    Why merged states have equal futures (for an implementation whose hidden state is a function of its inputs, which
+    is what any canonical projection assumes): the manager's hidden state consists of time stamps of exactly those
+    events, which it reads only through `now - t >= duration` / max(0, duration - (now - t)); the sets of pending members
+    and seen ids; and tables that no decision reads (nearby clusters) or that cannot tip a decision in this world
+    (nearby-VRU entries of L and O: 2 < NUM_CREATE_CLUSTER, the ghosts come and age as a block of 3).  The public
+    nearby counts are therefore NOT part of the key.  If an implementation has more hidden state than that, merging
+    only reduces what is explored below the merged state; it can never produce an alarm."""
+    ob = w.obs
+    pub = (ob["state"], ob["tx"], tuple(sorted(ob["notif"].items())), time_fields(ob["op"]), info_summary(ob["info"]), ob["cid"])
+    return (pub, mon_key(w, horizon_ticks),
+            None if w.ghost_k is None else min(w.k - w.ghost_k, D_NEAR), w.members)
 
 
 def mon_key(w, horizon_ticks):
@@ -370,6 +421,8 @@ class ManagerModel:
         w.leader = None        # station whose cluster VAM completed the join (harness knowledge)
         w.leader_rx_k = None   # tick of the last VAM delivered from that station
         w.seen = {}            # cluster ids delivered in information containers -> tick
+        w.ghost_k = None       # tick at which the block of three ghost VRUs last announced itself
+        w.members = ()         # stations that announced a join to the own cluster (while leading)
         w.bad = []
         w.flat_dicts = ("open", "seen")
         w.obs = observe(w)
@@ -380,7 +433,7 @@ class ManagerModel:
         return self.alpha
 
     def canon(self, w):
-        return (reduce_key(mgr_key(w), self.horizon), mon_key(w, self.horizon))
+        return canon_a(w, self.horizon)
 
     def outcome(self, w, obs):
         return obs
@@ -388,8 +441,8 @@ class ManagerModel:
     # -- one event = real calls --------------------------------------------------------------------
     def _rx(self, w, m, kind, who, form):
         sender = WHO[who]
-        own = getattr(m, "_cluster", None)
-        vam, info_id = make_rx(kind, own.cluster_id if own is not None else None, sender, form)
+        own_id = w.obs["cid"] if w.obs["state"] == "VRU_ACTIVE_CLUSTER_LEADER" else None
+        vam, info_id = make_rx(kind, own_id, sender, form)
         with w:
             m.on_received_vam(vam)
         return sender, info_id
@@ -398,6 +451,7 @@ class ManagerModel:
         m = w.mgr
         pre = w.obs
         pre_joinphase = w.joinphase
+        pre_silent = None if w.leader_rx_k is None else w.k - w.leader_rx_k
         ret = None
         exc = None
         info_id = None
@@ -416,6 +470,7 @@ class ManagerModel:
                     for g in GHOSTS:      # three VRUs close by announce themselves (real coder output)
                         with w:
                             m.on_received_vam(make_rx("plain", None, g, "wire")[0])
+                    w.ghost_k = w.k
                 lat, lon = V.pos_of(OWN)
                 draws = []
                 choice = ev[2] if len(ev) > 2 else 1
@@ -458,7 +513,7 @@ class ManagerModel:
                     # W: the hand-built dict with the same content, applied to a copy of the pre-state
                     w2 = V.snapshot(w)
                     self._rx(w2, w2.mgr, ev[1], ev[2], "dict")
-                    diff_expect = mgr_key(w2)
+                    diff_expect = w2
                 sender, info_id = self._rx(w, m, ev[1], ev[2], ev[3])
             else:
                 raise ValueError(ev)
@@ -470,13 +525,37 @@ class ManagerModel:
         w.obs = post
         self._monitor(w, ev, pre, post, pre_joinphase, sender, info_id, exc)
         if diff_expect is not None:
-            got = mgr_key(w)
-            if got != diff_expect:
-                has_info = ev[1] in RX_WITH_INFO
-                w.bad.append(dict(kind="wire_dict_divergence", rx=ev[1], who=ev[2], has_cluster_info=has_info,
-                                  state_before=pre["state"], differs=key_diff(got, diff_expect), _cut=True))
+            differs = self._wire_vs_dict(w, diff_expect, post, pre_silent)
+            if differs:
+                w.bad.append(dict(kind="wire_dict_divergence", rx=ev[1], who=ev[2], has_cluster_info=ev[1] in RX_WITH_INFO,
+                                  state_before=pre["state"], differs=differs, _cut=True))
         w.last = dict(pre_state=pre["state"], ret=ret, exc=exc)
         return (kind if kind != "rx" else "rx:" + ev[1], pre["state"], post["state"], ret, tuple(sorted(post["notif"])), post["tx"])
+
+    def _wire_vs_dict(self, w, w_dict, post, pre_silent):
+        """W: public observations after the real-coder form (w) and after the hand-built dict form (w_dict), now and -
+        because a refreshed leader heartbeat is not visible at once - after the next update at the two instants where
+        the leader-lost timer would expire with / without a refresh by this VAM."""
+        a, b = public_view(post), public_view(observe(w_dict))
+        if a != b:
+            return view_diff(a, b)
+        if post["state"] != "VRU_PASSIVE":
+            return ""
+        lat, lon = V.pos_of(OWN)
+        offsets = {D_CONT}
+        if pre_silent is not None and 0 < D_CONT - pre_silent < D_CONT:
+            offsets.add(D_CONT - pre_silent)
+        for off in sorted(offsets):
+            views = []
+            for src in (w, w_dict):
+                c = V.snapshot(src)
+                c.step(off)
+                with c:
+                    c.mgr.update(lat, lon, 1.0, 90.0)
+                views.append(public_view(observe(c)))
+            if views[0] != views[1]:
+                return "after_%d_ticks:" % off + view_diff(views[0], views[1])
+        return ""
 
     # -- harness-side monitors (N, J, leader bookkeeping) ---------------------------------------------
     def _monitor(self, w, ev, pre, post, pre_joinphase, sender, info_id, exc):
@@ -534,6 +613,19 @@ class ManagerModel:
                 w.leader_rx_k = w.k
         else:
             w.leader, w.leader_rx_k = None, None
+        # ---- members of the own cluster (who announced a join / leave towards it while this station leads)
+        if post["state"] == "VRU_ACTIVE_CLUSTER_LEADER":
+            if pre["state"] != "VRU_ACTIVE_CLUSTER_LEADER":
+                w.members = ()
+            elif kind == "rx" and exc is None:
+                mem = set(w.members)
+                if ev[1] in ("joinreq", "info+join"):
+                    mem.add(sender)
+                elif ev[1] in ("leavereq", "info+leave", "joinleave"):
+                    mem.discard(sender)
+                w.members = tuple(sorted(mem))
+        else:
+            w.members = ()
         # ---- P3: the VAM just received announces break-up and comes from the station that is the member's leader
         # AFTER this VAM (so also when the same VAM completed the join): stand-alone and transmitting by the next
         # update, whatever else the VAM carried.  Evaluated on a copy.
@@ -577,7 +669,7 @@ class ManagerModel:
             return [dict(kind="probe_no_leader_on_record", state=w.obs["state"])]
         lat, lon = V.pos_of(OWN)
         other = OTH if w.leader != OTH else LDR
-        joined = internal(w.mgr, "_joined_cluster_id")
+        joined = w.obs["cid"]
 
         def settle(c, label, **kw):
             with c:
@@ -831,6 +923,8 @@ class LoopModel:
         w.join = {}              # station -> ("notify"|"waiting", cluster id, since tick)
         w.leader_of = {}         # passive station -> station (name) whose cluster VAM completed its join
         w.advertised = None      # cluster id seen on the air by the harness
+        w.heard = {n: frozenset() for n in self.names}            # receiver -> station ids delivered so far
+        w.heard_clusters = {n: frozenset() for n in self.names}   # receiver -> cluster ids delivered so far
         w.bad = []
         return w
 
@@ -852,12 +946,14 @@ class LoopModel:
         return evs
 
     def canon(self, w):
-        st = []
-        for n in w.names:
-            svc = w.svc[n]
-            st.append((n, V.struct(svc.clustering_manager, w.now), V.struct(svc.vam_transmission_management, w.now)))
-        return (w.pc, tuple(sorted(w.done)), w.k, tuple(st), tuple((l, tuple(q)) for l, q in sorted(w.queues.items()) if q),
-                tuple(sorted(w.last_emit.items())), tuple(sorted(w.join.items())), tuple(sorted(w.leader_of.items())), w.advertised)
+        """Public observation of every manager + the harness's own knowledge (script position, actions done in the
+        stage, clock, queued payload bytes, last emission per station, join phases, stations/clusters heard).  Inside
+        one stage all orders share the same clock, so hidden time stamps are functions of exactly these."""
+        st = tuple((n, public_view(observe(w, w.mgr(n)))) for n in w.names)
+        return (w.pc, tuple(sorted(w.done)), w.k, st, tuple((l, tuple(q)) for l, q in sorted(w.queues.items()) if q),
+                tuple(sorted(w.last_emit.items())), tuple(sorted(w.join.items())), tuple(sorted(w.leader_of.items())), w.advertised,
+                tuple(sorted((n, tuple(sorted(v))) for n, v in w.heard.items())),
+                tuple(sorted((n, tuple(sorted(v))) for n, v in w.heard_clusters.items())))
 
     def outcome(self, w, obs):
         return obs
@@ -994,6 +1090,8 @@ class LoopModel:
         vam, derr = decode_payload(data)
         m = w.mgr(dst)
         pre_state = m.state.name
+        with w:
+            pre_nv, pre_nc = m.get_nearby_vru_count(), m.get_nearby_cluster_count()
         jp = w.join.get(dst)
         try:
             w.deliver((src, dst))
@@ -1005,14 +1103,19 @@ class LoopModel:
             return ("deliver", "undecodable")
         sm = vam_summary(vam)
         post_state = m.state.name
-        # the received VAM is reflected in the peer's manager ("drives the peer's state machine")
-        nv = internal(m, "_nearby_vrus").get(sm["sid"])
-        if nv is None or nv.last_seen != w.now:
+        # the received VAM is reflected in the peer's manager ("drives the peer's state machine"): public counters of
+        # the nearby tables (a station / cluster heard for the first time adds one entry; nothing disappears on reception)
+        with w:
+            nv, nc = m.get_nearby_vru_count(), m.get_nearby_cluster_count()
+        first = sm["sid"] not in w.heard[dst]
+        if nv < 1 or nv < pre_nv or (first and nv != pre_nv + 1):
             w.bad.append(dict(kind="rx_not_reflected", what="nearby_vru", receiver=dst, has_info=sm["info"] is not None, _cut=True))
+        w.heard[dst] = w.heard[dst] | {sm["sid"]}
         if sm["info"] is not None:
-            nc = internal(m, "_nearby_clusters").get(sm["info"][0])
-            if nc is None or nc.last_seen != w.now or nc.leader_station_id != sm["sid"]:
+            first_c = sm["info"][0] not in w.heard_clusters[dst]
+            if nc < 1 or nc < pre_nc or (first_c and nc != pre_nc + 1):
                 w.bad.append(dict(kind="rx_not_reflected", what="nearby_cluster", receiver=dst, has_info=True, _cut=True))
+            w.heard_clusters[dst] = w.heard_clusters[dst] | {sm["info"][0]}
             if jp is not None and jp[0] == "waiting" and jp[1] == sm["info"][0] and "breakup" not in sm["notif"]:
                 if post_state != "VRU_PASSIVE":
                     w.bad.append(dict(kind="join_not_completed", form="loop", receiver=dst, target=jp[1], state=post_state, _cut=True))
@@ -1044,7 +1147,7 @@ class LoopModel:
             m = w.mgr(n)
             ob = observe(w, m)
             if what == "knows_cluster":
-                if w.advertised is None or w.advertised not in internal(m, "_nearby_clusters"):
+                if w.advertised is None or ob["near_clusters"] < 1:
                     w.bad.append(dict(kind="loop_scenario_blocked", step="knows_cluster", station=n, advertised=w.advertised, _cut=True))
             elif what == "passive":
                 if ob["state"] != "VRU_PASSIVE" or ob["tx"]:
@@ -1292,6 +1395,7 @@ def run(ctx):
         caps=[("A", f"depth {depth}"), ("A:passive", f"prefix {len(PASSIVE_PREFIX)} + depth {extra}")], state_digests=digests,
         vams_emitted=stats_b.get("vams_emitted", 0), vams_delivered=stats_b.get("delivered", 0),
         complete_runs=stats_b.get("complete_runs", 0), emission_instants=sweep_n, worker_processes=procs,
+        anchored_state_roles_identified=sorted(discover_roles()),
         samples=(tot.samples[:2] + samples[:1]) or [[list(e) for e in probe_hist]],
         explanation=("A: every transition is one call into the real VBSClusteringManager (command, update, on_received_vam "
                      "with a hand-built dict or with the output of the real VAM coder, or a clock step); all histories over "
@@ -1304,7 +1408,7 @@ def run(ctx):
     ctx.assumptions += [
         "durations are the values of vam_constants.py (Table 15 of TS 103 300-3 as cited there); the standard was not available offline: %s" % durs,
         "VBSClusteringManager.update() is driven by the harness (the service never calls it; the statement speaks of 'the next update')",
-        "canonical projection of World A (mc/checks/c18.py:mgr_key/reduce_key) with the equal-futures argument given there",
+        "canonical state = public observation + harness knowledge of the history (mc/checks/c18.py:canon_a) with the equal-futures argument given there; no private attribute of the manager is named anywhere",
         "World B explores scripted scenarios (all orders inside each stage), not free command sequences",
         "senders stand within MAX_CLUSTER_DISTANCE; positions and kinematics are constants",
     ]
